@@ -6,6 +6,7 @@ import (
 	"encoding/json"
 	"flag"
 	"fmt"
+	gogoproto "github.com/gogo/protobuf/proto"
 	"google.golang.org/protobuf/encoding/protowire"
 	"io"
 	"math/rand"
@@ -138,6 +139,64 @@ func (d *Driver) emit(e *GEv) {
 	d.W.EmitAny(e)
 }
 
+// gogoResolver resolves imports of gogo-generated files: the global registry of google.golang.org/protobuf first (well-known types),
+// then the registry of github.com/gogo/protobuf, where gogo-generated files register their gzipped descriptors.
+type gogoResolver struct {
+	byPath map[string]protoreflect.FileDescriptor
+}
+
+var gogoFiles = &gogoResolver{byPath: map[string]protoreflect.FileDescriptor{}}
+
+func (r *gogoResolver) FindFileByPath(path string) (protoreflect.FileDescriptor, error) {
+	if fd, err := protoregistry.GlobalFiles.FindFileByPath(path); err == nil {
+		return fd, nil
+	}
+	if fd, ok := r.byPath[path]; ok {
+		return fd, nil
+	}
+	gz := gogoproto.FileDescriptor(path)
+	if gz == nil {
+		return nil, protoregistry.NotFound
+	}
+	zr, err := gzip.NewReader(bytes.NewReader(gz))
+	if err != nil {
+		return nil, err
+	}
+	raw, err := io.ReadAll(zr)
+	if err != nil {
+		return nil, err
+	}
+	var fdp descriptorpb.FileDescriptorProto
+	if err := proto.Unmarshal(raw, &fdp); err != nil {
+		return nil, err
+	}
+	fd, err := protodesc.NewFile(&fdp, r)
+	if err != nil {
+		return nil, err
+	}
+	r.byPath[path] = fd
+	return fd, nil
+}
+
+func (r *gogoResolver) FindDescriptorByName(name protoreflect.FullName) (protoreflect.Descriptor, error) {
+	if d, err := protoregistry.GlobalFiles.FindDescriptorByName(name); err == nil {
+		return d, nil
+	}
+	for _, fd := range r.byPath {
+		if !strings.HasPrefix(string(name), string(fd.Package())+".") {
+			continue
+		}
+		rel := protoreflect.Name(strings.TrimPrefix(string(name), string(fd.Package())+"."))
+		if md := fd.Messages().ByName(rel); md != nil {
+			return md, nil
+		}
+		if ed := fd.Enums().ByName(rel); ed != nil {
+			return ed, nil
+		}
+	}
+	return nil, protoregistry.NotFound
+}
+
 // descriptorOf finds the message descriptor of a generated type.
 func descriptorOf(ti TypeInfo, files map[string]protoreflect.FileDescriptor) (protoreflect.MessageDescriptor, error) {
 	m := ti.New()
@@ -165,7 +224,7 @@ func descriptorOf(ti TypeInfo, files map[string]protoreflect.FileDescriptor) (pr
 		if err := proto.Unmarshal(raw, &fdp); err != nil {
 			return nil, err
 		}
-		fd, err = protodesc.NewFile(&fdp, protoregistry.GlobalFiles)
+		fd, err = protodesc.NewFile(&fdp, gogoFiles)
 		if err != nil {
 			return nil, err
 		}
